@@ -114,10 +114,25 @@ def run(ctx: Ctx):
                 rv = ctx.rng.choice(rvs[:1] if p["workload"]["kind"] == "matmuls" else rvs)
                 p["lb_expr"] = ctx.rng.choice([f"~{rv}", rv, "All"])
                 p["lb_op"], p["lb_val"] = ctx.rng.choice([("==", 1), ("<=", 2), ("==", 2), ("product<=", 2), (">=", 1), ("<", 3)])
+        if i % 4 == 1:
+            # directed stream: strict / inclusive product constraints over several rank variables where a product equal to the
+            # limit is attainable and attractive (latency objective, fanout at the MAC array)
+            p["fanout"], p["fanout_at"] = 4, "mac"
+            p["lb_expr"] = "m | n0 | n1" if p["workload"]["kind"] == "matmuls" and p["workload"].get("N_EINSUMS", 1) == 1 else (
+                "m | n1" if p["workload"]["kind"] == "matmuls" else "a | b | c")
+            directed_ops = [("product<", 4), ("product<", 2), ("product>", 1), ("product<=", 2), ("product>=", 2), ("product==", 4)]
+            p["lb_op"], p["lb_val"] = directed_ops[((i // 4) + ctx.seed) % len(directed_ops)]
+            p["mac_tp"], p["glb_tp"], p["mm_tp"], p["lb_tp"] = 1, "inf", "inf", "inf"  # compute-bound: more fanout = lower latency
+            if p["workload"]["kind"] == "matmuls":
+                p["workload"]["M"], p["workload"]["KN"] = ctx.rng.choice([(4, 4), (2, 4), (4, 2), (8, 2)])
+            else:
+                p["workload"].update(A=ctx.rng.choice([2, 4]), B=ctx.rng.choice([2, 4]), C=2)
         p["glb_keep"] = ctx.rng.choice(["~MainMemory", "Nothing", "Inputs", "Outputs", "All"]) if p["workload"].get("N_EINSUMS", 1) == 1 else "~MainMemory"
         if p["workload"].get("N_EINSUMS", 1) > 1:
             knobs["max_fused_loops"] = ctx.rng.choice([0, 1, 2, "inf"])
         mets = ctx.rng.choice([["ENERGY"], ["LATENCY"], ["ENERGY", "LATENCY"], ["ENERGY", "LATENCY", "RESOURCE_USAGE"]])
+        if i % 4 == 1:
+            mets = ["LATENCY"]
         jobs.append((p, mets, knobs))
     results = ML.pool_map(work, jobs, workers=8)
     drv = ctx.driver()
